@@ -24,7 +24,9 @@ CONFIG = {
             "(ok / rejected / logic error / other) and the program's logs (what box_create and box_del pushed); per block, through the ledger: TotalBoxes and "
             "TotalBoxBytes of the application account, the box listing (LookupKeysByPrefix + LookupKv), the global state and GlobalStateSchema, every account's "
             "local state and AppLocalState.Schema. spec_state (the property itself) is evaluated on every observed block state. A history is non-trivial when at "
-            "least 3 calls with a non-empty script commit; distinct = distinct case lines.",
+            "least 3 calls with a non-empty script commit; distinct = distinct case lines. History 0 is scripted: it replays on the real code the observation "
+            "C23_update_after_creator_closeout (an UpdateApplication by another account in the block in which the creator closed out of its own application is "
+            "refused by a recovered panic) together with the neighbouring accepted cases (next block; sent by the creator; size change charged to the creator).",
     "exhaustive": {"quick": False, "thorough": False},
     "explanation": "theorems hold for every history of calls with arbitrary scripts (induction over histories, scripts and operations; invariant Inv of "
                    "proofs/AppStorageInv.v), all schemas and all values of the four consensus limits; the harness validates the transcription against the real "
@@ -35,6 +37,8 @@ CONFIG = {
                     "a program's writes are kept only if it passes and a failing transaction is discarded as a whole (child cows of StatefulEval / TransactionGroup: C19); "
                     "C23_put_writes_before_check shows setKey alone does not have this property",
                     "box budget / box reference / account availability checks of the AVM are granted (C35); the harness stays within them",
+                    "the application's creator is known (account 1 in the harness); AppParams.SizeSponsor and 'the creator closed out in this block' are part of the model's state "
+                    "because roundCowState.putAppParams + AccountDeltas.ModifiedAccounts make an update fail on them (observation reported to the lead)",
                     "boxes, global and local state of one application id are only touched by that application's own program (app_box_* access to another application's "
                     "boxes, AVM v13+, is not modelled; keys of different applications are disjoint by MakeBoxKey / the resource index)"],
     "trusted_base": ["modelled: ledger/eval/applications.go NewBox/SetBox/DelBox, data/transactions/logic/box.go lengthChecks + box{Create,Resize,Replace,Put,Del}Impl + "
